@@ -1,9 +1,50 @@
 (* Pinned statements of C14 (generated once by tools/mkpins.py from coq/props/C14.v, then committed). *)
 From DV Require Import Model.Base Model.Parser Model.Header Model.Readers Model.Uncompress Model.Mutate
-  Model.Gen Model.Text Proofs.Hoare Proofs.SynthTotal props.C14.
+  Model.Gen Model.Text Spec.NameSpec Spec.RecordSpec Proofs.Hoare Proofs.SynthTotal Proofs.NameText props.C14.
 Check (C14_from_str_total : forall name zone, nopanic (raw_name_from_str name zone)).
 Print Assumptions C14_from_str_total.
 Check (C14_from_str_len : forall raw name zone w,
   copy_raw_name_from_str raw name zone = Ok w ->
   exists enc, w = raw ++ enc /\ 1 <= length enc <= 253 /\ length name <= 253).
 Print Assumptions C14_from_str_len.
+Check (C14_from_str_sound : forall raw name z w,
+  copy_raw_name_from_str raw name z = Ok w ->
+  exists ls, Forall tlabel_ok ls /\
+    ((ls <> [] /\ name = dotted ls /\ w = raw ++ labels_flat ls ++ zone_or_root z /\
+      length (labels_flat ls ++ zone_or_root z) <= 253)
+     \/ ((name = dots ls \/ (name = [46%N] /\ ls = [])) /\ w = raw ++ wire_of_labels ls /\
+         length (wire_of_labels ls) <= 253))).
+Print Assumptions C14_from_str_sound.
+Check (C14_accepts_open : forall raw ls last z,
+  Forall tlabel_ok ls -> tlabel_ok last ->
+  length (labels_flat (ls ++ [last]) ++ zone_or_root z) <= 253 ->
+  copy_raw_name_from_str raw (dotted (ls ++ [last])) z = Ok (raw ++ labels_flat (ls ++ [last]) ++ zone_or_root z)).
+Print Assumptions C14_accepts_open.
+Check (C14_accepts_closed : forall raw ls z,
+  Forall tlabel_ok ls -> length (wire_of_labels ls) <= 253 ->
+  copy_raw_name_from_str raw (dots ls) z = Ok (raw ++ wire_of_labels ls)).
+Print Assumptions C14_accepts_closed.
+Check (C14_rejects_empty_label : forall raw a b z,
+  copy_raw_name_from_str raw (a ++ 46%N :: 46%N :: b) z = Err InvalidName).
+Print Assumptions C14_rejects_empty_label.
+Check (C14_rejects_leading_dot : forall raw b z, b <> [] ->
+  copy_raw_name_from_str raw (46%N :: b) z = Err InvalidName).
+Print Assumptions C14_rejects_leading_dot.
+Check (C14_rejects_long_label : forall raw l b z,
+  forallb (fun c => negb (c =? 46)%N) l = true -> 63 <= length l ->
+  copy_raw_name_from_str raw (l ++ b) z = Err InvalidName).
+Print Assumptions C14_rejects_long_label.
+Check (C14_rejects_long_label_after_dot : forall raw a l b z, a <> [] ->
+  forallb text_char_ok a = true -> length a <= 62 ->
+  forallb (fun c => negb (c =? 46)%N) l = true -> 63 <= length l ->
+  copy_raw_name_from_str raw (a ++ 46%N :: l ++ b) z = Err InvalidName).
+Print Assumptions C14_rejects_long_label_after_dot.
+Check (C14_rejects_long_text : forall raw name z, 253 < length name ->
+  copy_raw_name_from_str raw name z = Err InvalidName).
+Print Assumptions C14_rejects_long_text.
+Check (C14_ldh_roundtrip : forall ls, Forall ldh_label ls -> length (wire_of_labels ls) <= 253 ->
+  raw_name_from_str (dots ls) None = Ok (wire_of_labels ls) /\
+  (ls <> [] -> raw_name_from_str (dotted ls) None = Ok (wire_of_labels ls)) /\
+  raw_name_to_str (wire_of_labels ls) 0 = Ok (dotted ls) /\
+  cname_l (wire_of_labels ls) 0 ls (length (wire_of_labels ls))).
+Print Assumptions C14_ldh_roundtrip.
